@@ -112,8 +112,9 @@ def run(chk):
         o = {}
         try:
             try:
-                conn = Connection('example.org', 25570, username='user',
-                                  allowed_versions=None if al_spec is None else shape(rng, [to_py(s) for s in al_spec]),
+                given = None if al_spec is None else shape(rng, [to_py(s) for s in al_spec])
+                snapshot = (type(given), sorted(map(repr, given))) if isinstance(given, (set, list, tuple)) else None
+                conn = Connection('example.org', 25570, username='user', allowed_versions=given,
                                   initial_version=None if ini_spec is None else to_py(ini_spec))
             except ValueError:
                 o['construct'] = 'ValueError'
@@ -125,6 +126,8 @@ def run(chk):
                 conn.connect()
                 res = net.run_threads(conn)
                 o['conns'] = [parse_conn(None, b''.join(s.sends)) for s in servers if s.sends]
+                if snapshot is not None and (type(given), sorted(map(repr, given))) != snapshot:
+                    o['callers_collection'] = 'changed from %s to %s' % (snapshot[1], sorted(map(repr, given)))
                 raised = [r[1][1] for r in res if isinstance(r[1], tuple)]
                 if raised:
                     e = raised[0]
@@ -148,7 +151,9 @@ def run(chk):
         chk.count('negotiate', [repr(al)[:300], ini, beh], al is None or len(set(map(str, al))) > 1)
         chk.tally('server:%s' % beh[0])
         what = None
-        if not r:
+        if o.get('callers_collection'):
+            what = 'the collection the caller passed as allowed_versions was modified by the connection: %s' % o['callers_collection']
+        elif not r:
             if o.get('construct') != 'ValueError':
                 what = 'construction accepted a version set the library cannot serve (%s)' % (o.get('construct') or 'no error')
             chk.tally('outcome:ValueError')
@@ -185,7 +190,9 @@ def run(chk):
 
 def shape(rng, items):
     """the same versions as the kinds of iterable a caller may pass (the order of a list is the caller's; sets have their own)"""
-    k = rng.randrange(7)
+    k = rng.randrange(8)
+    if k == 7:
+        return set(items)
     if k == 0:
         return tuple(items)
     if k == 1:
